@@ -1,5 +1,87 @@
-/- Driver.Registry — line protocol of the `registry` sub-harness (stub until the unit is built). -/
-import Ioc.Basic
+/-
+  Driver.Registry — line protocol of the `registry` sub-harness (C04).
+
+  scenario   a list of operation trees in prefix form, space separated:
+               L <n> <0|1> <e>          GetSingleton(n, allowEarly); e = what the early factory returns if run
+               G <n> <e> [ … ] <res>    doGetComponent(n): lookup, else creation with the body … returning <res>
+             <e>, <res> ::= x (error) | o<name>#<ver>
+             A line may start with `F <words…> |`: a history recorded from the real factory (the words describe the
+             component graph for the harness; the model reads only what follows the bar).
+  output     the trace, space separated:  `[<n>` a creation body is entered;
+             `<n>=<o<name>#<ver>|nil|err><+|-><!>`  a call on n returned (+ = n in creation afterwards, ! = ran the
+             early factory).  Empty trace = `.`
+-/
+import Ioc.Registry
 namespace Driver.Registry
-def handle (_line : String) : String := "unimplemented"
+open Ioc
+
+def parseRes (t : String) : Option (Except Err Obj) :=
+  if t = "x" then some (.error .fail) else
+  match t.toList with
+  | 'o' :: rest =>
+    match (String.ofList rest).splitOn "#" with
+    | [a, b] =>
+      match a.toNat?, b.toNat? with
+      | some a, some b => some (.ok ⟨a, b⟩)
+      | _, _ => none
+    | _ => none
+  | _ => none
+
+mutual
+def parseAct : Nat → List String → Option (Act × List String)
+  | 0, _ => none
+  | _ + 1, "L" :: n :: b :: e :: rest =>
+    match n.toNat?, parseRes e with
+    | some n, some e =>
+      if b = "1" then some (.lookup n true e, rest)
+      else if b = "0" then some (.lookup n false e, rest)
+      else none
+    | _, _ => none
+  | f + 1, "G" :: n :: e :: "[" :: rest =>
+    match n.toNat?, parseRes e, parseActs f rest with
+    | some n, some e, some (body, "]" :: res :: rest') =>
+      match parseRes res with
+      | some res => some (.getOrCreate n e body res, rest')
+      | none => none
+    | _, _, _ => none
+  | _, _ => none
+/-- parses operations up to a closing bracket (left in the rest) or the end of the input -/
+def parseActs : Nat → List String → Option (List Act × List String)
+  | 0, _ => none
+  | _ + 1, [] => some ([], [])
+  | _ + 1, "]" :: rest => some ([], "]" :: rest)
+  | f + 1, toks =>
+    match parseAct f toks with
+    | some (a, rest) =>
+      match parseActs f rest with
+      | some (as, rest') => some (a :: as, rest')
+      | none => none
+    | none => none
+end
+
+def showObj (o : Obj) : String := "o" ++ toString o.name ++ "#" ++ toString o.ver
+
+def showEv : Ev → String
+  | .begin n => "[" ++ toString n
+  | .ret n r c ran =>
+    toString n ++ "=" ++
+      (match r with
+       | .obj o => showObj o
+       | .none => "nil"
+       | .err => "err") ++
+      (if c then "+" else "-") ++ (if ran then "!" else "")
+
+def dropHeader (toks : List String) : List String :=
+  match toks with
+  | "F" :: rest => (rest.dropWhile (· != "|")).drop 1
+  | _ => toks
+
+def handle (line : String) : String :=
+  let toks := dropHeader ((line.splitOn " ").filter (· != ""))
+  match parseActs (2 * toks.length + 2) toks with
+  | some (as, []) =>
+    let evs := (execs Reg.empty as).2
+    if evs.isEmpty then "." else joinWith " " (evs.map showEv)
+  | _ => "bad-line"
+
 end Driver.Registry
